@@ -17,7 +17,7 @@ def run(chk):
                 "non-trivial = at least two requests issued; distinct by event list")
     if getattr(chk, "model", None) is None:
         return chk.finish()
-    mons = [("cleanup", T.mon_cleanup), ("delivery", T.mon_delivery)]
+    mons = [("cleanup", T.mon_cleanup), ("delivery", T.mon_delivery), ("cancel", T.mon_cancel)]
     T.campaign(chk, 600 if thorough else 150, "cleanup", mons)
     T.campaign(chk, 300 if thorough else 60, "mixed", mons)
     extra(chk, thorough)
